@@ -11,10 +11,11 @@ trap 'git -C /repo worktree remove --force $W' EXIT
 DEMO=$(ls $SRC/zz_demo_${ID}_${X}_test.go 2>/dev/null | head -1)
 [ -f "$SRC/$X.patch.diff" ] && [ -n "$DEMO" ] || { echo "$ID$X: MISSING files"; exit 1; }
 TESTS=$(grep -o '^func Test[A-Za-z0-9_]*' $DEMO | sed 's/func //' | tr '\n' '|' | sed 's/|$//')
+RACE=""; grep -q -- "-race" $SRC/$X.meta.json 2>/dev/null && RACE="-race"
 cd $W
 # 1. demo on the unchanged tree
 cp $DEMO engine/
-if ! go test -vet=off -count=1 -run "^($TESTS)\$" ./engine/ >>$LOG 2>&1; then echo "$ID$X: REJECT demo fails on unchanged tree"; exit 1; fi
+if ! go test $RACE -vet=off -count=1 -run "^($TESTS)\$" ./engine/ >>$LOG 2>&1; then echo "$ID$X: REJECT demo fails on unchanged tree"; exit 1; fi
 rm engine/$(basename $DEMO)
 # 2. patch applies, builds, suite passes
 if ! git apply $SRC/$X.patch.diff >>$LOG 2>&1; then echo "$ID$X: REJECT patch does not apply to HEAD"; exit 1; fi
@@ -23,5 +24,5 @@ if ! go build ./... >>$LOG 2>&1; then echo "$ID$X: REJECT does not build"; exit 
 if ! go test -vet=off -count=1 ./... >>$LOG 2>&1; then echo "$ID$X: REJECT existing suite fails with the change"; exit 1; fi
 # 3. demo fails with the change
 cp $DEMO engine/
-if go test -vet=off -count=1 -run "^($TESTS)\$" ./engine/ >>$LOG 2>&1; then echo "$ID$X: REJECT demo passes with the change"; exit 1; fi
+if go test $RACE -vet=off -count=1 -run "^($TESTS)\$" ./engine/ >>$LOG 2>&1; then echo "$ID$X: REJECT demo passes with the change"; exit 1; fi
 echo "$ID$X: CONFIRMED tests=$TESTS files=$(git diff --name-only | tr '\n' ' ')"
